@@ -106,7 +106,12 @@ def flag_guard(F, R):
         for bi, t in froms:
             R.ob('C15.flag-guard', '%s|control_pkt|Pkt::Disconnect|after-test-and-set' % d.name, guarded(cp, bi, edges), 'a handler-supplied DISCONNECT is emitted without consulting the flag', cp.loc(bi))
         # result.disconnect => drop_sink(true) before return
-        ds = [(bi, t) for bi, t in cp.calls_to(r'^v5::shared::MqttShared::drop_sink$') if const_val(t['args'][1]) == 1]
+        def _is_true(body_, op_):
+            if const_val(op_) == 1:
+                return True
+            og_ = Origin(body_).of_operand(op_)
+            return bool(og_) and all(l_[0] == 'const' and l_[1] == 1 for l_ in og_)
+        ds = [(bi, t) for bi, t in cp.calls_to(r'^v5::shared::MqttShared::drop_sink$') if _is_true(cp, t['args'][1])]
         ok = False
         for sb in sorted(cp.live):
             t = cp.blocks[sb]['term']
